@@ -45,6 +45,27 @@ def make_unit(u):
                       dtr0=u["dtr0"], dtr1=u["dtr1"], wes=bool(u["wes"]))
 
 
+_CUSTOM = {}
+
+
+def custom_value(label, locs):
+    """a MemoryValue declared the way a user of the library would: own bank object (same bank number), locations in the
+    given order -- they need not be contiguous or ascending"""
+    key = (label, tuple(locs))
+    if key not in _CUSTOM:
+        from dali.memory.location import MemoryBank, MemoryLocation, MemoryType, NumericValue
+        t = core.spec_tables()
+        bp = t["bankprops"][label]
+        ty = types_of(label)
+        tmap = {"R": MemoryType.ROM, "r": MemoryType.RAM_RO, "W": MemoryType.RAM_RW, "n": MemoryType.NVM_RO,
+                "N": MemoryType.NVM_RW, "L": MemoryType.NVM_RW_L}
+        bank = MemoryBank(bp["number"], 0xFE, has_lock=bool(bp["lock"]), has_latch=bool(bp["latch"]))
+        cls = type("Custom_%s_%s" % (label, "_".join(map(str, locs))), (NumericValue,), {
+            "bank": bank, "locations": tuple(MemoryLocation(address=l, type_=tmap[ty.get(l, "R")]) for l in locs)})
+        _CUSTOM[key] = cls
+    return _CUSTOM[key]
+
+
 def addr_of(kind):
     from dali import address
     return address.GearShort(5) if kind == "gear" else address.DeviceShort(5)
@@ -79,14 +100,14 @@ def run_case(case):
     cells = []
     rec = {"seq": case["seq"], "unit": u, "value": case.get("value", ""), "latch": case.get("latch", 0),
            "wdata": case.get("wdata", []), "ignore": case.get("ignore", 0), "legal": 1,
-           "force": case.get("force", 0)}
+           "force": case.get("force", 0), "locs": list(case.get("locs", []))}
     if case["seq"] == "read":
         v = VALUES[(label, case["value"])]
         gen = v.read_raw(addr) if case.get("raw_only") else v.read(addr)
     elif case["seq"] == "read_all":
         gen = bank_obj(label).read_all(addr, use_latch=bool(case.get("latch", 1)))
     else:
-        v = VALUES[(label, case["value"])]
+        v = custom_value(label, case["locs"]) if case.get("locs") else VALUES[(label, case["value"])]
         if case.get("how") == "text":
             gen = v.write(addr, bytes(case["wdata"]).decode("ascii"), ignore_feedback=bool(case.get("ignore", 0)))
             if len(case["wdata"]) < len(v.locations):
@@ -121,6 +142,87 @@ def run_case(case):
     rec["final"] = list(sim.mem)
     rec["case"] = case
     return rec
+
+
+def run_pair(pair):
+    """two sequences of the library run interleaved, one yielded command at a time (two buses, two drivers, one
+    process): each must behave as if it ran alone.  -> two records"""
+    from dali.command import Command
+    from .unitsim import to_response
+    states = []
+    for case in pair:
+        u = case["unit"]
+        sim = make_unit(u)
+        addr = addr_of(u["kind"])
+        label = u["bank"]
+        rec = {"seq": case["seq"], "unit": u, "value": case.get("value", ""), "latch": case.get("latch", 0),
+               "wdata": case.get("wdata", []), "ignore": case.get("ignore", 0), "legal": 1, "force": case.get("force", 0),
+               "locs": []}
+        if case["seq"] == "read":
+            v = VALUES[(label, case["value"])]
+            gen = v.read(addr)
+        else:
+            v = None
+            gen = bank_obj(label).read_all(addr, use_latch=bool(case.get("latch", 1)))
+        states.append({"case": case, "sim": sim, "gen": gen, "rec": rec, "v": v, "ev": [], "send": None, "done": False,
+                       "out": {"exc": "none", "ret": None}})
+    while not all(st["done"] for st in states):
+        for st in states:
+            if st["done"]:
+                continue
+            try:
+                item = st["gen"].send(st["send"])
+            except StopIteration as s_:
+                st["out"]["ret"] = s_.value
+                st["done"] = True
+                continue
+            except Exception as e:  # noqa: recorded
+                st["out"]["exc"] = type(e).__name__
+                st["done"] = True
+                continue
+            if isinstance(item, Command):
+                if len(st["ev"]) > 700:
+                    st["out"]["exc"] = "nonterminating"
+                    st["done"] = True
+                    continue
+                sim = st["sim"]
+                resp = sim.step(len(item.frame), item.frame.as_integer)
+                st["ev"].append({"t": "cmd", "len": len(item.frame), "f": item.frame.as_integer, "resp": list(resp),
+                                 "dtr0": sim.dtr0, "wes": 1 if sim.wes else 0, "lock": sim.mem[2], "ch": []})
+                st["send"] = to_response(item, resp)
+            else:
+                st["send"] = None
+    recs = []
+    from dali.memory.location import StringValue
+    for st in states:
+        rec, out, case, v = st["rec"], st["out"], st["case"], st["v"]
+        rec["ev"] = st["ev"]
+        o = {"exc": out["exc"], "cell": 0, "cells": []}
+        if out["exc"] == "none":
+            if case["seq"] == "read":
+                w = len(v.locations) - (1 if getattr(v, "mask_length_adjust", 0) == -1 else 0)
+                c = cell_of(lambda: out["ret"], w)
+                if c["k"] == "text" and issubclass(v, StringValue):
+                    c["k"] = "str"
+                o["cellrec"] = c
+            else:
+                lst = []
+                for mv, val in (out["ret"] or {}).items():
+                    w = len(mv.locations) - (1 if getattr(mv, "mask_length_adjust", 0) == -1 else 0)
+                    c = cell_of(lambda: val, w)
+                    if c["k"] == "text" and issubclass(mv, StringValue):
+                        c["k"] = "str"
+                    lst.append([mv.__name__, c])
+                o["cellrecs"] = lst
+        rec["out"] = o
+        rec["final"] = list(st["sim"].mem)
+        rec["case"] = {"pair": pair}          # the replay runs the two of them together again
+        recs.append(rec)
+    return recs
+
+
+def _run_any(c):
+    return run_pair(c["pair"]) if "pair" in c else run_case(c)
 
 
 def drive_multi(gen, answer, cap):
@@ -203,7 +305,10 @@ def judge(prop, tier, seed, replay, cases_fn, rule, model_ops=()):
                 cs = cs + [{k: v for k, v in c.items() if k != "raw_only"} for c in extra]
         else:
             cs = [replay["case"]["case"]]
-        recs = core.pmap(run_case, cs, chunksize=32)
+        res = core.pmap(_run_any, cs, chunksize=32)
+        recs = []
+        for r_ in res:
+            recs += r_ if isinstance(r_, list) else [r_]
         cells = core.Interner()
         for ix, rec in enumerate(recs, 1):
             rec["id"] = ix
